@@ -48,6 +48,10 @@ struct S { a: i32, b: f32, v: vec3<f32>, }
 struct Light { pos: vec3<f32>, color: vec4<f32>, arr: {{T|struct_member_type||array<f32, 4>}}, }
 alias AI = {{T|alias_target||i32}};
 const ZERO = 0;
+const GIDX = 2;
+fn leaf2(a: i32, b: i32) -> i32 { return a - b; }
+fn leafv(v: vec2<f32>) -> f32 { return v.y; }
+@must_use fn mu(a: i32) -> i32 { return a * 2; }
 const ONE: i32 = {{E|module_const_init|i32|1}};
 const CF: f32 = {{E|module_const_init|f32|2.0}};
 const CV = vec3<f32>({{E|module_const_ctor_arg|f32|1.0}}, 2.0, 3.0);
@@ -65,9 +69,8 @@ var<workgroup> wg: array<u32, 4>;
 {{A|res_sampler||@binding(3) @group(0)}} var smp: sampler;
 {{D|module_scope||}}
 fn helper_i(a: i32, b: i32) -> i32 { {{S|helper_body||}} return a + {{E|helper_return|i32|b}}; }
-@must_use fn mu(a: i32) -> i32 { return a * 2; }
-fn helper_v(v: vec2<f32>) -> f32 { return v.x; }
-fn helper_void(p: {{T|param_type||f32}}) { }
+fn helper_void(p: f32) { }
+fn tp_param(p: {{T|param_type||f32}}) { }
 fn helper_ret() -> {{T|return_type||f32}} { return 1.0; }
 fn helper_ptr(p: ptr<function, {{T|ptr_pointee_type||i32}}>) { }
 fn big(n: i32) -> i32 {
@@ -110,6 +113,10 @@ T2 = """
 struct P { pos: vec4<f32>, n: vec3<f32>, id: u32, }
 struct Q { items: array<P, 2>, m: mat2x2<f32>, w: {{T|struct_member_type||vec2<f32>}}, }
 const N: u32 = 4u;
+const ZERO = 0;
+const GIDX = 2;
+fn leaf2(a: f32, b: f32) -> f32 { return a - b; }
+fn leafv(v: vec2<f32>) -> f32 { return v.y; }
 const TABLE = array<i32, 3>({{E|const_array_elem|i32|1}}, 2, 3);
 const M = mat2x2<f32>(1.0, {{E|const_mat_elem|f32|0.0}}, 0.0, 1.0);
 var<private> q: Q;
@@ -201,14 +208,12 @@ def fill(tmpl, hole_index=None, snippet=None):
 def expr_breakers(tname):
     if tname == "T1":
         vec3_var, struct_var, struct_ctor = "gv3", "gs", "S(1, 2.0, vec3<f32>(1.0))"
-        fn2, fn2_ok_args = "helper_i", ("1", "2")
-        fnv, fnv_bad, fnv_bad2 = "helper_v", "vec2<i32>(1, 2)", "vec3<f32>(1.0)"
-        zero_const = "ZERO"
+        fn2, fn2_ok_args = "leaf2", ("1", "2")
+        fnv, fnv_bad, fnv_bad2 = "leafv", "vec2<i32>(1, 2)", "vec3<f32>(1.0)"
     else:
         vec3_var, struct_var, struct_ctor = "q.items[0].n", "q", "P(vec4<f32>(1.0), vec3<f32>(1.0), 1u)"
-        fn2, fn2_ok_args = "total", ("1.0", "2.0")
-        fnv, fnv_bad, fnv_bad2 = "sq", "1u", "vec2<f32>(1.0)"
-        zero_const = "(N - 4u)"
+        fn2, fn2_ok_args = "leaf2", ("1.0", "2.0")
+        fnv, fnv_bad, fnv_bad2 = "leafv", "vec2<u32>(1u, 2u)", "vec4<f32>(1.0)"
     B = []
     add = lambda rule, variant, typ, const_ok, text: B.append((rule, variant, typ, const_ok, text))
     # undeclared identifier
@@ -258,7 +263,7 @@ def expr_breakers(tname):
     add("const_div_zero", "i32_div", "i32", True, "(1i / 0i)")
     add("const_div_zero", "u32_mod", "u32", True, "(7u % 0u)")
     add("const_div_zero", "u32_div", "u32", True, "(7u / 0u)")
-    add("const_div_zero", "named_zero", "i32" if tname == "T1" else "u32", True, "(%s / %s)" % ("1" if tname == "T1" else "1u", zero_const))
+    add("const_div_zero", "named_zero", "i32", True, "(1 / ZERO)")
     add("const_div_zero", "nested", "i32", True, "(2 * (3 / (1 - 1)))")
     # non-positive array size inside an expression
     add("nonpositive_array_size", "ctor_zero", "i32", True, "array<i32, 0>()[0]")
@@ -313,8 +318,10 @@ def stmt_breakers(tname):
         ("undeclared_identifier", "let_stmt", "let zz_q7 = nosuch_ident_q7;"),
         ("undeclared_function", "call_stmt", "nosuch_fn_q7();"),
         ("undeclared_type", "var_stmt", "var zz_q7: nosuch_t_q7;"),
+        ("undeclared_identifier", "array_size_var_stmt", "var zz_q7: array<f32, nosuch_ident_q7>;"),
         ("nonpositive_array_size", "var_stmt_zero", "var zz_q7: array<f32, 0>;"),
         ("nonpositive_array_size", "var_stmt_negative", "var zz_q7: array<f32, -1>;"),
+        ("arg_count", "call_stmt_extra", "helper_void(1.0, 2.0);" if tname == "T1" else "bump();"),
         ("const_div_zero", "let_stmt", "let zz_q7 = 1 / 0;"),
         ("const_div_zero", "const_stmt", "const zz_q7 = 1 / 0;"),
         ("const_div_zero", "const_stmt_u32_mod", "const zz_q7: u32 = 7u % 0u;"),
@@ -330,6 +337,7 @@ def decl_breakers(tname):
         ("undeclared_identifier", "const_decl", "const zz_q7 = nosuch_ident_q7;"),
         ("undeclared_identifier", "global_var_init", "var<private> zz_q7: i32 = nosuch_ident_q7;"),
         ("undeclared_identifier", "override_init", "override zz_q7: i32 = nosuch_ident_q7;"),
+        ("undeclared_identifier", "array_size_global", "var<private> zz_q7: array<f32, nosuch_ident_q7>;"),
         ("undeclared_type", "global_var", "var<private> zz_q7: nosuch_t_q7;"),
         ("undeclared_type", "alias", "alias zz_q7 = nosuch_t_q7;"),
         ("undeclared_type", "struct_member", "struct zz_q7 { m: nosuch_t_q7, }"),
@@ -339,7 +347,7 @@ def decl_breakers(tname):
         ("nonpositive_array_size", "global_zero", "var<private> zz_q7: array<f32, 0>;"),
         ("nonpositive_array_size", "global_negative", "var<private> zz_q7: array<f32, -1>;"),
         ("nonpositive_array_size", "global_zero_u", "var<private> zz_q7: array<f32, 0u>;"),
-        ("nonpositive_array_size", "global_named_zero", "const zz0_q7 = 0; var<private> zz_q7: array<f32, zz0_q7>;"),
+        ("nonpositive_array_size", "global_named_zero", "var<private> zz_q7: array<f32, ZERO>;"),
         ("nonpositive_array_size", "global_computed_zero", "var<private> zz_q7: array<f32, 2 - 2>;"),
         ("nonpositive_array_size", "global_computed_negative", "var<private> zz_q7: array<f32, 2 - 3>;"),
         ("nonpositive_array_size", "workgroup_zero", "var<workgroup> zz_q7: array<u32, 0>;"),
@@ -349,19 +357,19 @@ def decl_breakers(tname):
         ("const_div_zero", "const_decl", "const zz_q7 = 1 / 0;"),
         ("const_div_zero", "const_decl_typed_i32", "const zz_q7: i32 = 1 / 0;"),
         ("const_div_zero", "const_decl_u32_mod", "const zz_q7: u32 = 7u % 0u;"),
-        ("const_div_zero", "const_decl_named", "const zz0_q7 = 0; const zz_q7 = 4 / zz0_q7;"),
+        ("const_div_zero", "const_decl_named", "const zz_q7 = 4 / ZERO;"),
         ("const_div_zero", "global_var_init", "var<private> zz_q7: i32 = 1 / 0;"),
         ("const_div_zero", "override_init", "override zz_q7: i32 = 1 / 0;"),
         ("const_div_zero", "array_size", "var<private> zz_q7: array<f32, 4 / 0>;"),
         ("group_binding_pairing", "group_only_new_uniform", "@group(2) var<uniform> zz_q7: vec4<f32>;"),
         ("group_binding_pairing", "binding_only_new_uniform", "@binding(7) var<uniform> zz_q7: vec4<f32>;"),
-        ("group_binding_pairing", "group_only_named_const", "const zzg_q7 = 2; @group(zzg_q7) var<uniform> zz_q7: vec4<f32>;"),
-        ("group_binding_pairing", "binding_only_named_const", "const zzg_q7 = 2; @binding(zzg_q7) var<uniform> zz_q7: vec4<f32>;"),
+        ("group_binding_pairing", "group_only_named_const", "@group(GIDX) var<uniform> zz_q7: vec4<f32>;"),
+        ("group_binding_pairing", "binding_only_named_const", "@binding(GIDX) var<uniform> zz_q7: vec4<f32>;"),
         ("group_binding_pairing", "group_only_sampler", "@group(2) var zz_q7: sampler;"),
         ("group_binding_pairing", "binding_only_texture", "@binding(7) var zz_q7: texture_2d<f32>;"),
         ("missing_workgroup_size", "new_compute_entry", "@compute fn zz_q7() { }"),
         ("must_use_discarded", "in_new_function", "fn zz_q7() { %s; }" % ("mu(1)" if tname == "T1" else "total(1.0, 2.0)")),
-        ("arg_count", "in_new_function", "fn zz_q7() { %s; }" % ("helper_void()" if tname == "T1" else "bump()")),
+        ("arg_count", "in_new_function", "fn zz_q7() { _ = leaf2(%s); }" % ("1" if tname == "T1" else "1.0")),
     ]
     return B
 
@@ -370,6 +378,7 @@ TYPE_BREAKERS = [
     ("undeclared_type", "bare", "nosuch_t_q7"),
     ("undeclared_type", "array_elem", "array<nosuch_t_q7, 4>"),
     ("undeclared_type", "vec_elem", "vec3<nosuch_t_q7>"),
+    ("undeclared_identifier", "array_size", "array<f32, nosuch_ident_q7>"),
     ("nonpositive_array_size", "zero", "array<f32, 0>"),
     ("nonpositive_array_size", "negative", "array<f32, -1>"),
     ("nonpositive_array_size", "zero_u", "array<f32, 0u>"),
@@ -428,43 +437,52 @@ def semantic_cases(tname):
 # ------------------------------------------------------------------ rendering with known positions
 
 def render(lexemes, rng=None):
-    """Text of a token list.  Deterministic layout when rng is None; otherwise seeded
-    choice of blanks / line breaks / indentation.  Returns (src, [(line, col)] per token)."""
+    """Text of a token list.  Deterministic layout when rng is None; otherwise a seeded
+    (random.Random) choice of blanks / line breaks / indentation.  Returns (src, [(line, col)] per token)."""
     parts = []
     pos = []
     line, col = 1, 1
     depth = 0
     paren = 0
+    last = len(lexemes) - 1
+    rnd = rng.random if rng is not None else None
     for k, lx in enumerate(lexemes):
         pos.append((line, col))
         parts.append(lx)
         col += len(lx)
-        if lx in "([":
+        if lx == "(" or lx == "[":
             paren += 1
-        elif lx in ")]":
+        elif lx == ")" or lx == "]":
             paren = max(0, paren - 1)
         elif lx == "{":
             depth += 1
         elif lx == "}":
             depth = max(0, depth - 1)
-        if k + 1 == len(lexemes):
+        if k == last:
             break
-        nl = (lx in (";", "{", "}") and paren == 0)
-        if rng is not None:
-            r = rng.below(12)
-            if r == 0:
-                nl = True
-            elif r == 1 and lx != ";":
-                nl = False
+        nl = (lx == ";" or lx == "{" or lx == "}") and paren == 0
+        if rnd is None:
+            if nl:
+                parts.append("\n" + " " * (depth * 2))
+                line += 1
+                col = 1 + depth * 2
+            else:
+                parts.append(" ")
+                col += 1
+            continue
+        r = rnd()
+        if r < 0.08:
+            nl = True
+        elif r < 0.16 and lx != ";":
+            nl = False
         if nl:
-            n = 1 if rng is None or not rng.chance(1, 6) else 2
-            parts.append("\n" * n)
+            n = 2 if r > 0.9 else 1
+            ind = int(rnd() * 7)
+            parts.append("\n" * n + " " * ind)
             line += n
-            ind = depth * 2 if rng is None else rng.below(7)
-            parts.append(" " * ind)
             col = 1 + ind
         else:
-            n = 1 if rng is None or not rng.chance(1, 8) else 1 + rng.below(3)
+            n = 1 if r < 0.85 else 1 + int(rnd() * 3)
             parts.append(" " * n)
             col += n
     src = "".join(parts) + "\n"
@@ -583,7 +601,8 @@ def semicolon_sites(lexemes):
             elif first == "_":
                 kind = "phony_assign"
             elif first == ";":
-                kind = "empty"
+                stmt_start = k + 1
+                continue   # an empty statement / the optional `;` after a struct: deleting it breaks no rule
             else:
                 # call / assignment / increment
                 seg = lexemes[stmt_start:k]
@@ -746,6 +765,8 @@ def ident_use_sites(lexemes, kinds):
             out.append((k, "member_name"))
         elif nxt == "(":
             out.append((k, "callee_name"))
+        elif prev == "," and in_angle_of(lexemes, k, ("array", "binding_array")) and nxt in (">", ">>"):
+            out.append((k, "array_size_name"))
         elif prev == ":" or prev == "->" or (prev in ("<", ",") and in_angle_of(lexemes, k, TEMPLATE_HEADS)):
             out.append((k, "type_name"))
         else:
